@@ -41,7 +41,9 @@ def inputs():
     out = []
     fixed = dt.timezone(dt.timedelta(hours=5, minutes=30))
     sub = dt.timezone(dt.timedelta(seconds=-3661))
-    years = {"y1": (1, 1, 2), "y1969": (1969, 12, 31), "y1970": (1970, 1, 1), "y2038": (2038, 1, 19), "y9999": (9999, 12, 30)}
+    # (2106-02-07T06:28:16Z is 2**32 seconds, 2262-04-11 is 2**63 nanoseconds, 3000 / 9000 are simply far away)
+    years = {"y1": (1, 1, 2), "y1969": (1969, 12, 31), "y1970": (1970, 1, 1), "y2038": (2038, 1, 19), "y2106": (2106, 2, 7), "y2107": (2107, 3, 4), "y2262": (2262, 4, 12),
+             "y3000": (3000, 1, 1), "y9000": (9000, 6, 6), "y9999": (9999, 12, 30)}
     for yc, (y, m, d) in years.items():
         base = (y, m, d, 3, 14, 8, 123456)
         out.append(("naive", yc, dt.datetime(*base)))                       # naive means UTC
@@ -101,6 +103,9 @@ def run(tier):
     ctx.sensitivity("Timestamps", "MC_Timestamps_dev.cfg", "losing fold on the way in must violate InputInstant", "InputInstant", workers=4)
     tmp = common.scratch("c13")
     D = RecordDescriptor("t/ts", [("datetime", "ts"), ("varint", "n")])
+    # a type whose FIRST version (in this process and in the database) has no timestamp field; the second one adds it
+    Devo_old = RecordDescriptor("t/tsevo", [("varint", "n")])
+    Devo_new = RecordDescriptor("t/tsevo", [("varint", "n"), ("datetime", "ts")])
     cases = []
     ins = inputs()
     if thorough:
@@ -132,7 +137,7 @@ def run(tier):
                 cases.append({"kind": "roundtrip", "tz": kind, "year": yc, "form": form, "fmt": "input", "in_instant": exp_inst, "stored_instant": [0, 0, 0], "stored_offset": 0, "stored_aware": False,
                               "out_instant": [0, 0, 0], "out_offset": 0, "out_aware": False, "raised": True, "exc": type(e).__name__ + ":" + str(e)[:60], "digests": ["-"]})
                 continue
-            for fmt in ("binary", "binary-path", "json", "sqlite", "avro"):
+            for fmt in ("binary", "binary-path", "json", "sqlite", "sqlite-evolved", "avro"):
                 c = {"kind": "roundtrip", "tz": kind, "year": yc, "form": form, "fmt": fmt.split("-")[0], "via": fmt, "in_instant": exp_inst, "stored_instant": st_inst, "stored_offset": st_off, "stored_aware": st_aware,
                      "out_instant": [0, 0, 0], "out_offset": 0, "out_aware": False, "raised": False, "exc": "none", "digests": ["-"]}
                 try:
@@ -143,6 +148,14 @@ def run(tier):
                         data = b.getvalue()
                         w.fp = None
                         back = list(RecordStreamReader(io.BytesIO(data)))
+                    elif fmt == "sqlite-evolved":
+                        for f in os.listdir(tmp):
+                            os.remove(os.path.join(tmp, f))
+                        full = "sqlite://" + os.path.join(tmp, "evo.db")
+                        with RecordWriter(full) as w:
+                            w.write(Devo_old(0, _generated=gen.GEN))
+                            w.write(Devo_new(1, value, _generated=gen.GEN))
+                        back = [r for r in RecordReader(full) if int(r.n) == 1]
                     else:
                         url = {"binary-path": "o.records.gz", "json": "o.json", "sqlite": "sqlite://o.db", "avro": "o.avro"}[fmt]
                         for f in os.listdir(tmp):
